@@ -34,7 +34,12 @@ def _init(factory, alphabet, enabled):
     # machine down, and shows as an exception the specification does not have
     try:
         import resource
-        lim = 3 << 30
+        # (3 GB on top of what the forked worker starts with: the parent's
+        # address space grows with the number of configurations it has run)
+        cur = 0
+        with open('/proc/self/statm') as f:
+            cur = int(f.read().split()[0]) * resource.getpagesize()
+        lim = cur + (3 << 30)
         resource.setrlimit(resource.RLIMIT_AS, (lim, lim))
     except Exception:
         pass
